@@ -215,3 +215,66 @@ def flw15_flush_trigger(ctx):
             trig = True
     ctx.check('FLW-15', 'enforce_wal_limit|pending-triggers-flush', trig,
               'a non-empty pending list is one of the flush conditions', where(site))
+
+
+# ------------------------------------------------------------------------------------ ORD-18
+def ord18_no_flusher_before_replay_is_complete(ctx):
+    """Start-up replays the recovered log segments into the table buffers.  A flush freezes *every*
+    buffer, records the cursor at the end of the recovered log and deletes all segment files; if it
+    can run while the replay loop is still going, the rows replayed after the freeze exist only in
+    memory, their segments are gone, and the next clean restart loses them.  So nothing that can
+    (through spawned threads) reach the flush may be started before the replay loop has finished."""
+    from mirlib.cfg import CFG
+    from .common import calls_matching, where
+    ctx.rule('ORD-18', 'in the start-up routine that replays the recovered log, everything that can reach '
+                       'the flush (directly or through a spawned thread) is started after the replay loop',
+             floor=1)
+    P = ctx.P
+    SIB = ('mem_store::table::Table::ingest_homogeneous', 'mem_store::table::Table::ingest_heterogeneous',
+           'mem_store::table::Table::ingest')
+    flush = [b for b in P.find('InnerLocustDB::wal_flush') if b.kind == 'fn' and '{closure' not in b.name]
+    ctx.require(flush, 'ORD-18: InnerLocustDB::wal_flush not found')
+    flush_names = {b.name for b in flush}
+    memo = {}
+
+    def reaches_flush(body):
+        if body.name not in memo:
+            memo[body.name] = bool(flush_names & set(P.reachable_bodies([body], follow_async=True)))
+        return memo[body.name]
+    n = 0
+    for b in P.fn_bodies():
+        if b.crate != 'locustdb' or '{closure' in b.name or b.kind != 'fn':
+            continue
+        ing = calls_matching(b, lambda x: x in SIB)
+        if not ing:
+            continue
+        reach = P.reachable_bodies([b], follow_async=True)
+        if not any(r.endswith('Storage::recover') for r in reach):
+            continue
+        n += 1
+        cfg = CFG(b)
+        loops = {h: cfg.natural_loop(h) for h in cfg.loop_headers()}
+        outer = []
+        for (ib, _t) in ing:
+            hs = [h for h, lp in loops.items() if ib.id in lp]
+            if hs:
+                outer.append(max(hs, key=lambda h: len(loops[h])))
+        ctx.require(outer, 'ORD-18: the replay in %s is not a loop' % b.name)
+        k = 0
+        for (blk, t) in b.calls():
+            if blk.cleanup or not t.func:
+                continue
+            cs = P.resolve(t.func, b.crate)
+            cs = list(cs) + [c for c in P.closures_in_text(t.func)]
+            if not any(reaches_flush(c) for c in cs):
+                continue
+            k += 1
+            ok = all(blk.id not in loops[h] and cfg.dominates(h, blk.id) for h in outer)
+            callee = norm_callee(t.func).split('::')[-1]
+            ctx.check('ORD-18', '%s|%s|started-after-replay' % (re.sub(r'^.*?(\w+::\w+)$', r'\1', b.name), callee), ok,
+                      '%s can reach the flush (freeze, cursor advance, log deletion) and %s' %
+                      (callee, 'is called only after the replay loop has finished' if ok else
+                       'is called before or inside the replay loop: a flush in the middle of the replay deletes '
+                       'segments whose rows are not yet in any partition'), where(t))
+        ctx.require(k >= 1, 'ORD-18: %s never starts anything that reaches the flush' % b.name)
+    ctx.require(n >= 1, 'ORD-18: no start-up replay routine found')
